@@ -45,6 +45,10 @@ CHECKS = {
          "headers/footers/speaker notes are rendered to docx, pptx, odt, odp, odg, rtf, html, mhtml, epub, txt, md, csv, tsv, json, pdf, eml, mbox and extracted; every body token must occur exactly once, in order, "
          "separated across boundaries, no excluded token, no alphanumeric residue. A failure is tolerated only if neutralising the feature of a listed known finding makes the document pass and the failing clause is the listed one.",
          "Writers are the harness's own (self-checked for well-formedness) and part of the trusted base; only tokens are judged; xlsx/ods/xls/ppt legs are covered by C13/C03; visual reading order beyond the documented rule is not judged.", "DESIGN.md §4 C02"),
+ "C03": ("exploration", "model-based Hypothesis generation of multi-unit documents (empty units, permuted part order, absolute targets, heading structures) + all fixtures; unit count/number/partition/join oracle",
+         "Generated documents with up to 8 (thorough 30) pages/slides/chapters/messages incl. empty ones are rendered to 17 formats; each unit must carry its 1-based source position, hold exactly the tokens of its "
+         "source unit (text, unit tables or heading path), and get_full_text() must equal the trimmed newline-join of the unit texts for the formats documented so. Every repository fixture is checked for numbering and the join clause.",
+         "For heading-sectioned flow formats the number of units is not prescribed (only numbering, partition and order); heading text is not required to be covered when its section has no body; fixtures have no ground truth for count/partition.", "DESIGN.md §4 C03"),
 }
 NOT_YET = {}
 
